@@ -282,6 +282,11 @@ impl<E> Mat<E> {
 
 const COLS: [usize; 16] = [1, 2, 3, 7, 8, 9, 15, 16, 17, 31, 33, 64, 100, 127, 254, 255];
 
+/// one segment built directly (public constructor) from an arbitrary base-column offset
+fn direct_segment<E: FieldElement, const N: usize>(polys: &ColMatrix<E>, poly_offset: usize, offsets: &[E::BaseField], twiddles: &[E::BaseField]) -> Result<Vec<Vec<E::BaseField>>, vf_core::PanicSig> {
+    catch(|| winter_prover::matrix::Segment::<E::BaseField, N>::new(polys, poly_offset, offsets, twiddles).into_data().into_iter().map(|r| r.to_vec()).collect())
+}
+
 fn eval_rows<E: FieldElement, const N: usize>(polys: &ColMatrix<E>, domain: &StarkDomain<E::BaseField>, over: bool, blowup: usize) -> RowMatrix<E> {
     if over {
         RowMatrix::evaluate_polys_over::<N>(polys, domain)
@@ -302,7 +307,7 @@ where
         tier.pick(1_200, 10_000)
     }
     fn rule(&self) -> String {
-        "matrices of {1,2,3,7,8,9,15,16,17,31,33,64,100,127,254,255} columns x 2^3..2^8 (quick) / 2^11 (thorough) rows, per-column polynomials expanded from generated seeds, blowup 2..16, segment width N in {1,2,4,8,16} (column counts that are and are not multiples of N), StarkDomain::from_twiddles with offset {1, generator, random}; ColMatrix::interpolate_columns / evaluate_columns_over / evaluate_columns_at and RowMatrix::evaluate_polys / evaluate_polys_over vs Horner at generated (row, column) sample positions; non-trivial = more than one column and column count not a multiple of N, or an extension field".into()
+        "matrices of {1,2,3,7,8,9,15,16,17,31,33,64,100,127,254,255} columns x 2^3..2^8 (quick) / 2^11 (thorough) rows, per-column polynomials expanded from generated seeds, blowup 2..16, segment width N in {1,2,4,8,16} (column counts that are and are not multiples of N), StarkDomain::from_twiddles with offset {1, generator, random}; ColMatrix::interpolate_columns / evaluate_columns_over / evaluate_columns_at and RowMatrix::evaluate_polys / evaluate_polys_over and a single Segment::<N>::new at an arbitrary base-column offset vs Horner at generated (row, column) sample positions; non-trivial = more than one column and column count not a multiple of N, or an extension field".into()
     }
     fn required_labels(&self, _t: Tier) -> Vec<String> {
         vec!["cols%N!=0".into(), "cols%N==0".into(), "N=1".into(), "N=16".into(), "air-domain:ce<lde".into()]
@@ -401,6 +406,42 @@ where
                     "{what}::<{nseg}> ({cols} columns, {n} rows, blowup {blowup}): entry (row {r}, column {j}) differs from direct evaluation"
                 );
                 ensure!(rm.row(r).len() == cols && rm.row(r)[j] == rm.get(j, r), format!("{what}/row"), "row() and get() disagree");
+            }
+        }
+        // a single segment built by its public constructor at ANY base-column offset (build_segments only uses
+        // multiples of N): slot j holds base column offset + j evaluated over the domain, slots past the last
+        // column are zero
+        {
+            let offsets = winter_prover::matrix::get_evaluation_offsets::<E>(n, blowup, off);
+            let twid = fft::get_twiddles::<B<E>>(n);
+            let po = pick_index(c.positions[6], base_cols);
+            obs.label(if po % nseg == 0 { "segment-offset%N==0" } else { "segment-offset%N!=0" });
+            let seg = match nseg {
+                1 => direct_segment::<E, 1>(&polys, po, &offsets, &twid),
+                2 => direct_segment::<E, 2>(&polys, po, &offsets, &twid),
+                4 => direct_segment::<E, 4>(&polys, po, &offsets, &twid),
+                8 => direct_segment::<E, 8>(&polys, po, &offsets, &twid),
+                _ => direct_segment::<E, 16>(&polys, po, &offsets, &twid),
+            }
+            .map_err(|p| vf_core::Fail::new(format!("Segment::new/{}", p.key()), format!("Segment::<{nseg}>::new at base-column offset {po} of {base_cols} panicked: {}", p.msg)))?;
+            ensure!(seg.len() == big && seg.iter().all(|r| r.len() == nseg), "Segment::new/shape", "segment shape");
+            for k in 0..6 {
+                let r = match k {
+                    0 => 0,
+                    1 => big - 1,
+                    _ => pick_index(c.positions[k], big),
+                };
+                let x = f.from_base(fp.mul(moff, fp.pow(wbig, r as u128)));
+                for j in 0..nseg {
+                    let bc = po + j;
+                    let want = if bc < base_cols { rp::eval(&f, &mcol(bc / f.deg), &x)[bc % f.deg] } else { 0 };
+                    obs.comparisons += 1;
+                    ensure!(
+                        seg[r][j].to_u128() == want,
+                        "Segment::new/value",
+                        "Segment::<{nseg}>::new at base-column offset {po} of {base_cols} ({n} rows, blowup {blowup}): row {r}, slot {j} differs from direct evaluation of base column {bc}"
+                    );
+                }
             }
         }
         // ColMatrix paths
